@@ -137,6 +137,48 @@ def _polar_text(d_out):
         return None
 
 
+# the hypothesis wf_prog on the real code: a user variable named like the name the pass generates
+CAPTURE = "_old0 = 7\nx = 0\ny = 0\nwhile true:\n    if x == 0:\n        x = 1\n        y = _old0\n    end\nend\n"
+
+
+def capture_probe(ctx, probe, cov):
+    """Polar's IfTransformer output on CAPTURE (fresh counter) against the source program, exact
+    E(y) after one iteration computed by the reference semantics inside Coq on both."""
+    info = {"program": CAPTURE, "hypothesis": "wf_prog (no input variable named _old...)"}
+    cov["capture_probe"] = info
+    if not probe or "error" in probe or "exception" in probe:
+        info["outcome"] = "not accepted by Polar: " + str((probe or {}).get("exception") or (probe or {}).get("error"))
+        return
+    try:
+        src, exp, k0, flags, _ = _case(probe)
+    except Skip as s:
+        info["outcome"] = f"not comparable: {s}"
+        return
+    if exp is None:
+        info["outcome"] = "if-statement left"
+        return
+    body = (core.FLAT_HEADER + "From Polar Require Import PassIf PassIfK.\n"
+            f"Definition p0 : prog := {src}.\nDefinition e0 : flatprog := {exp}.\n"
+            'Eval vm_compute in [qnum (E (run no_law p0 1 st0) (fun s => s "y")); qnum (E (frun no_law e0 1 st0) (fun s => s "y"))].\n'
+            f"Eval vm_compute in (pass_if_check {k0} p0 e0 {P.lst(['true' if x else 'false' for x in flags])}).\n")
+    ok, out = lib.coq_run(ctx, "pif_capture", body, timeout=120)
+    m = re.search(r"=\s*\[\s*\(?(-?\d+)\)?%Z;\s*\(?(-?\d+)\)?%Z\s*\]", out or "")
+    mb = re.search(r"=\s*\[([^\]]*)\]\s*:\s*list bool", out or "")
+    bools = [x.strip() == "true" for x in mb.group(1).split(";")] if mb else None
+    if not ok or not m or not bools or len(bools) != 5:
+        info["outcome"] = "no answer from Coq"
+        info["coq"] = (out or "")[-600:]
+        return
+    a, b = int(m.group(1)), int(m.group(2))
+    info.update({"E(y)_after_1_iteration_source": a, "E(y)_after_1_iteration_IfTransformer_output": b,
+                 "wf_prog": bools[4], "model_equals_polar": bools[1] and bools[2], "polar_output": probe.get("text_after")})
+    if a != b:
+        info["outcome"] = (f"CAPTURE: the generated copy `_old0 = x` overwrites the user's variable _old0: E(y) after one iteration is {a} "
+                           f"in the source and {b} after IfTransformer; the hypothesis wf_prog is necessary and Polar does not enforce it")
+    else:
+        info["outcome"] = "no capture: the pass output agrees with the source on this program"
+
+
 def extra_runs(ctx):
     """targeted and random programs run through Polar up to IfTransformer only (tasks_passif.py)"""
     rng = random.Random(ctx.seed * 7919 + 17)
@@ -144,7 +186,12 @@ def extra_runs(ctx):
     for i in range(ctx.pick(24, 300)):
         g = gen.G(rng, max_depth=rng.choice([2, 3]), allow_nested_reassign=True)
         todo.append((P.prog_text(g.program()), {"transform_categoricals": True} if i % 2 else {}))
-    res = lib.run_tasks([{"kind": "passif", "text": t, "opts": o, "timeout": 60} for t, o in todo], timeout=60, jobs=ctx.pick(4, 12))
+    tasks = [{"kind": "passif", "text": t, "opts": o, "timeout": 60} for t, o in todo]
+    tasks.append({"kind": "passif", "text": CAPTURE, "opts": {}, "timeout": 60, "fresh_counter": True})
+    res = lib.run_tasks(tasks, timeout=60, jobs=ctx.pick(4, 12))
+    probe = res.pop()
+    if isinstance(probe, dict):
+        probe.update({"text": CAPTURE, "opts": {}})
     out, errs = [], {}
     for (t, o), r in zip(todo, res):
         if "error" in r or "exception" in r:
@@ -153,7 +200,7 @@ def extra_runs(ctx):
             continue
         out.append({"text": t, "opts": o, "snapshots": r.get("snapshots") or [], "counter_at_pass": r.get("counter_at_pass"),
                     "counter_after": r.get("counter_after"), "origin": "pass_if"})
-    return out, errs
+    return out, errs, probe
 
 
 def run_pass(ctx, runs):
@@ -165,7 +212,8 @@ def run_pass(ctx, runs):
         ctx.violation("pass_if:model-build", {"log": log[-3000:], "theorem": "theories/PassIfK.v"},
                       "the IfTransformer model / correspondence helpers no longer build", no_input=True)
         return
-    own, own_errs = extra_runs(ctx)
+    own, own_errs, probe = extra_runs(ctx)
+    capture_probe(ctx, probe, cov)
     cov["own_programs"] = len(own)
     if own_errs:
         cov["own_program_errors"] = own_errs
@@ -282,6 +330,7 @@ def run_pass(ctx, runs):
     print(f"  [pass IfTransformer] instances={cov['instances']} model==polar={cov['matched']} with_if={cov['with_if']} "
           f"with_old_copies={cov['with_old_copies']} mutex_statements={cov['mutex_statements']} skipped={cov['skipped']} "
           f"wall={cov['wall_s']}s", flush=True)
+    print(f"  [pass IfTransformer] hypothesis wf_prog on the code: {cov['capture_probe'].get('outcome')}", flush=True)
     ctx.coverage["trusted_base"] += [
         "harness/pass_if.py + harness/core.py: conversion of the DistTransformer/IfTransformer snapshots into Syntax.prog / "
         "Syntax.flatprog (polynomials expanded by sympy in tasks_core.dump_expr; equality up to PassIfK.expr_eqn, proved sound)",
